@@ -166,7 +166,7 @@ def script(rng, case, idx):
             for s in (salt, dmso):
                 rec(f'{label}.moles.{s.name}.umol', 'moles_display', 'umol', c.get_moles(s, 'umol'))
                 rec(f'{label}.moles.{s.name}.mmol', 'moles_display', 'mmol', c.get_moles(s, 'mmol'))
-                rec(f'{label}.mass.{s.name}.mg', 'mass_display', 'mg', c.get_volumes(s, 'mg'))
+                rec(f'{label}.volumes.{s.name}.uL', 'volume_display', 'uL', c.get_volumes(s, 'uL'))      # (was get_volumes(s, 'mg') until 16bec4f: a volume is not answered in mg)
 
     with M.active(case):
         stock = attempt('stock', lambda: C('stock', '1 L', [(water, '200 mL'), (salt, f'{rng.choice([2, 5, 10])} g')]))
@@ -444,6 +444,8 @@ def finalize(m, tier):
                 vb = b[4]
                 compared += 1
                 buckets[f'C18/answer/{KIND_BUCKET.get(kind, kind)}'] += 1
+                if kind in ('tracking', 'tracking_raw') and isinstance(unit, str) and unit.endswith('g'):
+                    buckets['C18/answer/mass'] += 1      # (masses are asked of the tracking queries: a plate has no per-well mass observer)
                 ok = True
                 if isinstance(va, str) or isinstance(vb, str) or va is None or vb is None:
                     ok = va == vb
